@@ -530,13 +530,25 @@ pub fn check_abandoned(c: &AbCase) -> CheckResult {
                 let body = vec![0x22u8; BIG];
                 tokio::time::timeout(abandon, cl.call_with_formats("/big", 1, Some(&body), 0)).await
             });
+            // The first follow-up starts while the big write is still in progress, so it
+            // queues on the writer lock and runs right after the abandonment.
+            tokio::time::sleep(Duration::from_millis(3)).await;
+            let queued = {
+                let cl = client.clone();
+                let m = issued2[1].clone();
+                tokio::spawn(async move {
+                    let _ = cl.notify_with_formats(&m.path, 1, Some(&vec![m.fill; m.body_len]), 0).await;
+                })
+            };
+            tokio::time::sleep(Duration::from_millis(3)).await;
             if c.abort {
-                tokio::time::sleep(abandon).await;
+                tokio::time::sleep(abandon.saturating_sub(Duration::from_millis(6))).await;
                 big.abort();
             }
             let interrupted = !matches!(big.await, Ok(Ok(Ok(_))));
+            let _ = queued.await;
             tokio::time::sleep(stall.saturating_sub(abandon) + Duration::from_millis(20)).await;
-            for m in &issued2[1..] {
+            for m in &issued2[2..] {
                 let _ = client.notify_with_formats(&m.path, 1, Some(&vec![m.fill; m.body_len]), 0).await;
             }
             drop(client);
@@ -551,7 +563,7 @@ pub fn check_abandoned(c: &AbCase) -> CheckResult {
 }
 
 fn ab_case() -> BoxedStrategy<AbCase> {
-    (any::<bool>(), 1u16..60, any::<bool>(), 40u16..200, 1u8..4)
+    (any::<bool>(), 8u16..60, any::<bool>(), 40u16..200, 2u8..4)
         .prop_map(|(ws, abandon_ms, abort, stall_ms, followups)| AbCase {
             ws,
             abandon_ms,
